@@ -1,8 +1,10 @@
 (* C01, "occur in no other container's allowed CPU set as told to the runtime": the runtime-side
    pins.  [told_cpus] says what a GRANTED container is told; the runtime keeps the last cpuset it
-   was told for every container that is still running.  A failed UpdateContainer releases the
-   container's grant without telling it anything (topology-aware UpdateResources = release +
-   allocate; the allocation fails): the container keeps running on its old cpuset. *)
+   was told for every container that is still running.  A re-allocation that fails -- at
+   Synchronize or during a configuration update, when the listing or the new configuration asks for
+   more than fits -- releases the container's grant without telling it anything: the container
+   keeps running on its old cpuset.  (UpdateContainer used to do the same; that path was repaired:
+   a refused update now restores the previous grant.) *)
 From Coq Require Import ZArith List Lia.
 From stdpp Require Import gmap sets.
 From NV Require Import C20_Model TA_Model TA_Proofs.
@@ -10,7 +12,7 @@ Import ListNotations.
 
 Inductive pop :=
 | PStep (o : op)
-| PFailedUpdate (cid : nat).     (* grant released, nothing told: the pin goes stale *)
+| PLostGrant (cid : nat).     (* re-allocation failed: grant released, nothing told, the pin goes stale *)
 
 Definition told_map (t : tree) (s : st) : gmap nat cset := told_cpus t s <$> grants s.
 
@@ -24,7 +26,7 @@ Definition pstep (t : tree) (sp : st * gmap nat cset) (o : pop) : res (st * gmap
       Ok (s', told_map t s' ∪ kept)          (* every granted container is told its cpuset afresh *)
     | Err e => Err e
     end
-  | PFailedUpdate cid => let s' := ta_release t s cid in Ok (s', told_map t s' ∪ pins)
+  | PLostGrant cid => let s' := ta_release t s cid in Ok (s', told_map t s' ∪ pins)
   end.
 
 Fixpoint prun (t : tree) (sp : st * gmap nat cset) (os : list pop) : res (st * gmap nat cset) :=
@@ -33,5 +35,5 @@ Fixpoint prun (t : tree) (sp : st * gmap nat cset) (os : list pop) : res (st * g
   | o :: os' => match pstep t sp o with Ok sp' => prun t sp' os' | Err e => Err e end
   end.
 
-Definition is_step (o : pop) : bool := match o with PStep _ => true | PFailedUpdate _ => false end.
-Definition unstep (o : pop) : op := match o with PStep o' => o' | PFailedUpdate c => ORelease c end.
+Definition is_step (o : pop) : bool := match o with PStep _ => true | PLostGrant _ => false end.
+Definition unstep (o : pop) : op := match o with PStep o' => o' | PLostGrant c => ORelease c end.
